@@ -170,8 +170,11 @@ struct Violation
 static std::vector<Violation> found;
 static std::map<std::string, long> stats;
 
-static void viol(const char* prop, const std::string& key, const std::string& detail)
+static void viol(const char* prop, std::string key, const std::string& detail)
 {
+    for (auto& c : key)
+        if (c == ' ')
+            c = '-';
     found.push_back({ prop, key, detail });
 }
 
